@@ -253,11 +253,12 @@ def EvOk (cfg : Cfg) : Ev → Prop
   | _ => True
 
 theorem envOk_of_fixed (cfg : Cfg) (h9 : cfg.f9Fixed = true) (ha : cfg.allocBypassFixed = true)
-    (he : cfg.epollBypassFixed = true) (h14 : cfg.f14Fixed = true) (env : IdleEnv) : EnvOk cfg env :=
+    (he : cfg.epollBypassFixed = true) (h14 : cfg.f14Fixed = true ∧ cfg.f14ClearsAware = true) (env : IdleEnv) :
+    EnvOk cfg env :=
   ⟨Or.inl h9, Or.inl ha, Or.inl he, Or.inl h14⟩
 
 theorem evOk_of_fixed (cfg : Cfg) (h9 : cfg.f9Fixed = true) (ha : cfg.allocBypassFixed = true)
-    (he : cfg.epollBypassFixed = true) (h14 : cfg.f14Fixed = true) (e : Ev) : EvOk cfg e := by
+    (he : cfg.epollBypassFixed = true) (h14 : cfg.f14Fixed = true ∧ cfg.f14ClearsAware = true) (e : Ev) : EvOk cfg e := by
   cases e <;> simp [EvOk] <;> exact envOk_of_fixed cfg h9 ha he h14 _
 
 theorem step_rel {σ} (cfg : Cfg) (app : App σ) (c : Conn σ) (p : PSt) (e : Ev) (h : Rel c p) (hok : EvOk cfg e) :
